@@ -26,6 +26,7 @@ type Write struct {
 
 var errClosedConn = errors.New("use of closed network connection")
 var errInjectedWrite = errors.New("network is down (injected)")
+var errInjectedClose = errors.New("input/output error on close (injected)")
 
 // Conn is a scripted net.PacketConn built on shim primitives: ReadFrom blocks on a
 // scheduler-owned queue, every WriteTo is a scheduling point and is logged.
@@ -39,6 +40,7 @@ type Conn struct {
 	nWrites   int
 	OnWrite   func(w Write)
 	OnReadErr func() // called when a scripted read error is handed to the code under test
+	CloseErr  error  // returned by Close (the socket is closed all the same, as an OS does when close(2) reports EIO)
 	local     net.Addr
 }
 
@@ -118,7 +120,7 @@ func (c *Conn) Close() error {
 	}
 	c.closed = true
 	c.closedCh.Close()
-	return nil
+	return c.CloseErr
 }
 
 func (c *Conn) LocalAddr() net.Addr                { return c.local }
